@@ -29,7 +29,7 @@ CLAIMED = {
    text="Exhaustive enumeration of abstract programs (the full opcode x modifier x mode x lone-operand grid as one-instruction programs; three-instruction skeletons in which each slot takes every template x every pair from a 22-expression symbolic operand alphabet over labels, EQUs, predefined constants and literals; ORG/END/none) in both dialects and several core sizes, plus every set of <=2 surface-rendering deviations of representative programs; CompileWarrior(render(p)) is compared with meaning(p) computed without gmars.",
    technique="bounded exhaustive enumeration of programs x deviation-bounded renderings + independent denotational reference"),
  "C08": dict(engine="e4-asm", design="4/C08",
-   text="Every FOR/ROF structure tree up to an item bound (depth <=3, counts 0..6 / 0..3, <=40 block expansions, counters inside operand arithmetic, block labels used inside and after the block, counts spelled via EQU or enclosing counter), and sequences of 1..14 blocks: CompileWarrior(p), CompileWarrior(unroll(p)) and meaning(unroll(p)) must agree.",
+   text="Every FOR/ROF structure tree up to an item bound (depth <=3, counts 0..6 / 0..3, <=40 block expansions, counters inside operand arithmetic, block labels used inside and after the block, counts spelled via EQU or enclosing counter), and sequences of 1..14 blocks, each also in one of five surface variants (incl. labels spelled like the counters in the other case): CompileWarrior(p), CompileWarrior(unroll(p)) and meaning(unroll(p)) must agree.",
    technique="bounded exhaustive enumeration of FOR structure trees + differential against manual unrolling and denotational reference"),
  "C06": dict(engine="e4-asm", design="4/C06",
    text="The structural predicate (fields < M, entry point inside the code, length <= maximum, defined enum values; under ICWS'88 an independent legality table with the implied modifier) is evaluated on every input that assembles among the C03 and C08 spaces and targeted grids around every range check (ORG/END k around the length in 5 spellings, lengths around the maximum written out and through FOR, all opcode x modifier x 9 x 10 mode combinations under ICWS'88, extreme literals).",
@@ -50,10 +50,10 @@ CLAIMED = {
    text="Every lexeme string up to a length bound over a 24-lexeme alphabet (incl. NUL, ^Z, invalid UTF-8, CR-LF), every 1- and 2-token mutation of 12 seed programs, every reader chunking / read error up to a deviation bound and every producer/consumer schedule of the lexer and FOR-expander goroutines up to a preemption bound are assembled on the instrumented build under a controlled scheduler: non-return is a deterministic step-budget verdict, a leaked goroutine is a thread still blocked when all others finished; err xor warrior and no panic are checked on every execution; a scaling family checks the step count against a linear budget; a free-running pass on the plain build re-checks goroutine counts.",
    technique="stateless exploration under a controlled scheduler (preemption / deviation bounded DFS) + bounded exhaustive input enumeration with a deterministic step budget"),
  "C14": dict(engine="e7-concurrency (instrumented build) + copy isolation + race pass", design="4/C14",
-   text="Scenarios of 2..3 concurrent jobs (three kinds of assembly, load, simulation sharing one configuration value and one WarriorData) run as threads of a controlled scheduler on the instrumented build with scheduling points at every function entry, loop iteration and channel operation: every interleaving up to a deviation bound must give each job its sequential result with no leak or deadlock; every map-iteration order vector with <=2 deviating sites over 14 symbol-table programs must give one result; every (mutation of caller data x API point) pair must leave the simulator's observations unchanged; the caller's one WarriorData variable handed to AddWarrior two and three times (one and two simulators) with every mutation in between must give the warriors that independent deep copies give; configuration neighbourhoods (a base and every valid single-field change) used forwards, backwards and alternating in one process must give every assembly its by-construction meaning and every probe battle the reference MARS result; a free-running -race pass over job sets and thread counts 1..32 complements this for plain-memory races.",
+   text="Scenarios of 2..3 concurrent jobs (three kinds of assembly, load, simulation sharing one configuration value and one WarriorData) run as threads of a controlled scheduler on the instrumented build with scheduling points at every function entry, loop iteration and channel operation: every interleaving up to a deviation bound must give each job its sequential result with no leak or deadlock; every map-iteration order vector with <=2 deviating sites over 14 symbol-table programs must give one result; every (mutation of caller data x API point) pair must leave the simulator's observations unchanged; the caller's one WarriorData variable handed to AddWarrior two and three times (one and two simulators) with every mutation in between must give the warriors that independent deep copies give; 256 shapes of caller data (entry points at and beyond the code length, empty code, spare capacity) must come back untouched from AddWarrior and a battle; configuration neighbourhoods (a base and every valid single-field change) used forwards, backwards and alternating in one process must give every assembly its by-construction meaning and every probe battle the reference MARS result; a free-running -race pass over job sets and thread counts 1..32 complements this for plain-memory races.",
    technique="stateless interleaving exploration under a controlled scheduler (deviation-bounded DFS) + exhaustive map-order and mutation-point enumeration; race detector pass as sampled complement"),
  "C17": dict(engine="e8-cli", design="4/C17",
-   text="cmd/gmars is rebuilt from the working tree and run on files rendered from 8 by-construction warriors under every ordered pair x every -F placement x a boundary grid of -s -l -p -c -8 -r, each preset, one-warrior runs; stdout must equal the tallies of the reference MARS, exit status 0. Random placement: the same command built with math/rand replaced through an overlay, every answer sequence of the random source forced for rounds 1..3; tallies must equal the reference results at the placements actually used and every round must be counted exactly once.",
+   text="cmd/gmars is rebuilt from the working tree and run on files rendered from 8 by-construction warriors under every ordered pair x every -F placement x a boundary grid of -s -l -p -c -8 -r, each preset, one-warrior runs, -F at and above the core size; stdout must equal the tallies of the reference MARS, exit status 0. Random placement: the same command built with math/rand replaced through an overlay, every answer sequence of the random source forced for rounds 1..3; tallies must equal the reference results at the placements actually used and every round must be counted exactly once.",
    technique="exhaustive enumeration of flag vectors, placements and forced random answers against the reference MARS"),
 }
 
